@@ -448,11 +448,10 @@ def materialise(src):
     return {"P": P, "ps": ps, "pg": pg, "ins": ins, "ppos": ppos, "gpos": gpos, "zero": zero, "explicit": explicit, "explicit_sigma": explicit_sigma, "eff_par": eff_par, "init": big_init, "edge": edge}
 
 
-def quantity_values(ps, pg):
+def quantity_values(ps, pg, parameters=None):
     """every input TimeSeries / outcome that sample() may perturb: {key: (kind of input, sigma, value, value class)} with
     value = (assumption, tuple of year values) resp. the outcome number.  Keys are stable across copies."""
     out = {}
-    fw_pars = None
 
     def vclass(sigma, vals):
         if any(v == 0 for v in vals):
@@ -474,7 +473,7 @@ def quantity_values(ps, pg):
 
     for name, par in ps.pars.items():
         for pop, ts in par.ts.items():
-            ts_entry(("parameter", name, pop), "databook-quantity", ts)
+            ts_entry(("parameter", name, pop), "databook-quantity" if parameters is None else ("parameter" if name in parameters else "initial-size"), ts)
     for name, byfrom in ps.transfers.items():
         for frm, par in byfrom.items():
             for to, ts in par.ts.items():
